@@ -228,7 +228,12 @@ Definition process (s : dstate) (id : rid) (rd : readiness) (a : answer) : dstat
           let '(s1, o1, ready) := resolve_pending s0 id p a in
           if ready then
             match rd with
-            | Write => (s1, o0 ++ o1)      (* write_to_remote: ready_to_write() is constantly true *)
+            | Write =>
+                (* write_to_remote: ready_to_write() is constantly true.  A resource that became
+                   ready in THIS call is read once too: completing the handshake may have consumed
+                   and buffered incoming data that no read event will announce *)
+                if r_ready p then (s1, o0 ++ o1)
+                else let '(s2, o2) := read_from_remote s1 id p a in (s2, o0 ++ o1 ++ o2)
             | Read => let '(s2, o2) := read_from_remote s1 id p a in (s2, o0 ++ o1 ++ o2)
             end
           else (s1, o0 ++ o1)
